@@ -104,4 +104,15 @@ PROPS = {
             "now + 600 s does not overflow 64 bits",
         ],
     },
+    "C12": {
+        "lean_modules": ["DocsModel.Props.C12"],
+        "trusted_base": COMMON_TRUST + [
+            "async_channel delivery (an accepted send is received once, in order) and the store actor's sequential processing are trusted",
+            "hook H1 (process-global clock: the actor runs on its own thread)",
+        ],
+        "assumptions": [
+            "a channel is subscribed at most once (subscribing the same sender twice delivers every event twice; the model reproduces it, the theorems exclude it)",
+            "receivers are drained after every acknowledged request, so channels never fill up",
+        ],
+    },
 }
